@@ -91,6 +91,16 @@ CLAIMED = {
         "(hide / remove legs, wrist correction, holistic reduction) are checked on OpenPose and Holistic-shaped headers on the implementation (only the named points change) — partial: helpers are not modelled in Lean.",
    technique="Lean 4 proof (list/index reasoning over the header transcription) + differential correspondence and name-level oracle",
    design="§5 C11"),
+ "C12": dict(
+   text="Theorems (Props/C12.lean) about the executable pose-level model (Model/PoseSeq: header components + NumPy body, thirteen operations incl. get / remove components, bbox, focus, interpolation, selection, stepping, flip, "
+        "matrix product / augmentation, backend conversion, and `transform` = any shape-preserving recomputation of the coordinates, which is what the normalisers are under their preconditions): PInv = every format has D + 1 letters, "
+        "coordinates (F, P, header points, D), confidences (F, P, points), missing flags = the ones derived from confidence 0 in all D coordinates (wf_pointwise). step_inv: every operation whose stated precondition holds maps a "
+        "well-formed pose to a well-formed pose; run_inv: so does every sequence, of any length; fits_of_inv / serialisable: a well-formed NumPy pose has the shape its header describes, so C01's write → read theorem applies. "
+        "Supporting lemmas: bbox_inv (the box mask is the derived mask because a consistent point is missing in all coordinates at once), interpolate_inv, matmul_inv, getComponents_shape (index list matches the new header, "
+        "stays inside the old one, formats kept). Partial: that normalize / normalize_distribution leave the mask alone under their preconditions, the dropouts' draws and torch / tensorflow bodies are decided on the implementation: "
+        "random precondition-respecting operation sequences with the invariant evaluated after every step on all three backends and write → read at the end.",
+   technique="Lean 4 proof (invariant by induction over operation sequences on nested arrays; refinement to C01 for serialisation) + randomised sequence execution with invariant checks and model correspondence",
+   design="§5 C12"),
  "C14": dict(
    text="Theorems (Props/C14.lean), the model's linear interpolation instantiated with an arbitrary linearly ordered field: the resampled clip has the requested number of frames — round(F * new_fps / fps), a binary64 rounding evaluated by the caller and checked on the implementation — at the new rate (interp_frames_fps) whose instants run from 0 to 1 "
         "(linspace_ends); a track is missing at every new instant outside [first observation, last observation] (track_zero_outside_window, before_window); inside, the value equals the observation at an observed instant "
